@@ -95,14 +95,8 @@ func runC10(c *Ctx) {
 	if fin := c.P.Method("sign/gcsca", "CertificateAuthority", "Finalize"); fin != nil {
 		storPkg := repoPath("storage/storagei")
 		wf := c.P.Func("storage/ops", "WriteFile")
-		gates := map[*ssa.Function]bool{}
-		for _, f := range c.funcsCalling(func(call ssa.CallInstruction) bool { return invokeIs(call, storPkg, "Client", "Exists") }) {
-			if load.RelPkg(f) == "sign/gcsca" && len(callsIn(f, func(call ssa.CallInstruction) bool {
-				return (wf != nil && call.Common().StaticCallee() == wf) || invokeIs(call, storPkg, "Client", "Writer")
-			})) > 0 {
-				gates[f] = true
-			}
-		}
+		gates := c.gcscaGates()
+		_, _ = storPkg, wf
 		c.uploadEntryRule("R8", gates, c.reachable([]*ssa.Function{fin}, nil))
 	}
 	sl := flow.NewSlicer(c.P)
